@@ -4,3 +4,5 @@ pub assume_specification[ i64::checked_shl ](x: i64, rhs: u32) -> (r: Option<i64
     ensures
         rhs >= 64 ==> r.is_none(),
         rhs < 64 ==> r == Some(x << rhs);
+//# assumes: i64::from(u32) is the value-preserving widening
+pub assume_specification[ <i64 as From<u32>>::from ](x: u32) -> (r: i64) ensures r == x;
